@@ -158,12 +158,19 @@ TMsg ==
   /\ Consume /\ UNCHANGED <<varsA, varsB, scen, mode, live>>
 
 (* ---------------------------------------------------------------- (S) *)
+\* One real Communicator.Sync run.  The verdict is re-derived from logged facts (total score and id order of the two
+\* heads, where the node's best ended up, how many of the peer's blocks it holds), not read off the driver's booleans.
 TSyncEnd ==
   /\ IsEvent("SyncEnd")
-  /\ ev.validBest                            \* best = best of a reference node holding the same valid blocks
-  /\ ev.storeOK                              \* store = local store + a prefix of the peer's valid chain
-  /\ ev.prefers => ev.converged              \* Converges
-  /\ ev.hostile \in {"undecodable", "toolarge"} => ev.dropped      \* rpc.Serve ended: the peer is dropped
+  /\ IF ev.timeout THEN TRUE                   \* the harness gave up on this pair (absolute cap): nothing is concluded
+     ELSE LET prefers == Better(ev.rhead, ev.lhead) IN
+          /\ ev.validBest                      \* best = best of a reference node holding the same valid blocks
+          /\ ev.storeOK                        \* store = local store + a prefix of the peer's valid chain
+          /\ ev.imported <= ev.remoteOnly
+          /\ ev.hostile = "" =>
+               /\ ev.best = (IF prefers THEN "r" ELSE "l")                 \* Converges, and nothing else is followed
+               /\ prefers => ev.imported = ev.remoteOnly
+          /\ ev.hostile \in {"undecodable", "toolarge"} => ev.dropped    \* rpc.Serve ended: the peer is dropped
   /\ Consume /\ UNCHANGED <<vars, mode>>
 
 TNote == IsEvent("Note") /\ Consume /\ UNCHANGED <<vars, mode>>
